@@ -34,6 +34,9 @@ Inductive task :=
 (* tempLockBufferEntry *)
 Record entry := mkE { e_rv : bool; e_ce : bool; e_lwc : ts }.
 
+(* ttlManager (keep-alive of the primary lock): state and the key its goroutine was started with *)
+Inductive kast := KUninit | KRunning (k : key) | KClosed.
+
 (* aggressiveLockingContext *)
 Record actx := mkA {
   cur : list (key * entry);        (* currentLockedKeys *)
@@ -57,23 +60,36 @@ Record st := mkS {
   cmaxc : ts;              (* committer.maxLockedWithConflictTS *)
   tasks : list task;
   valid : bool;
-  pess : bool }.
+  pess : bool;
+  ka : kast }.               (* committer.ttlManager *)
 
-Definition init (p : bool) : st := mkS [] [] [] [] 0%Z None false None 0 0 [] true p.
+Definition init (p : bool) : st := mkS [] [] [] [] 0%Z None false None 0 0 [] true p KUninit.
 
 (* ---- setters ---- *)
-Definition set_store x s := mkS x (flags s) (written s) (presume s) (cnt s) (agg s) (committer s) (primary s) (fu s) (cmaxc s) (tasks s) (valid s) (pess s).
-Definition set_flags x s := mkS (store s) x (written s) (presume s) (cnt s) (agg s) (committer s) (primary s) (fu s) (cmaxc s) (tasks s) (valid s) (pess s).
-Definition set_written x s := mkS (store s) (flags s) x (presume s) (cnt s) (agg s) (committer s) (primary s) (fu s) (cmaxc s) (tasks s) (valid s) (pess s).
-Definition set_presume x s := mkS (store s) (flags s) (written s) x (cnt s) (agg s) (committer s) (primary s) (fu s) (cmaxc s) (tasks s) (valid s) (pess s).
-Definition set_cnt x s := mkS (store s) (flags s) (written s) (presume s) x (agg s) (committer s) (primary s) (fu s) (cmaxc s) (tasks s) (valid s) (pess s).
-Definition set_agg x s := mkS (store s) (flags s) (written s) (presume s) (cnt s) x (committer s) (primary s) (fu s) (cmaxc s) (tasks s) (valid s) (pess s).
-Definition set_committer x s := mkS (store s) (flags s) (written s) (presume s) (cnt s) (agg s) x (primary s) (fu s) (cmaxc s) (tasks s) (valid s) (pess s).
-Definition set_primary x s := mkS (store s) (flags s) (written s) (presume s) (cnt s) (agg s) (committer s) x (fu s) (cmaxc s) (tasks s) (valid s) (pess s).
-Definition set_fu x s := mkS (store s) (flags s) (written s) (presume s) (cnt s) (agg s) (committer s) (primary s) x (cmaxc s) (tasks s) (valid s) (pess s).
-Definition set_cmaxc x s := mkS (store s) (flags s) (written s) (presume s) (cnt s) (agg s) (committer s) (primary s) (fu s) x (tasks s) (valid s) (pess s).
-Definition set_tasks x s := mkS (store s) (flags s) (written s) (presume s) (cnt s) (agg s) (committer s) (primary s) (fu s) (cmaxc s) x (valid s) (pess s).
-Definition set_valid x s := mkS (store s) (flags s) (written s) (presume s) (cnt s) (agg s) (committer s) (primary s) (fu s) (cmaxc s) (tasks s) x (pess s).
+Definition set_store x s := mkS x (flags s) (written s) (presume s) (cnt s) (agg s) (committer s) (primary s) (fu s) (cmaxc s) (tasks s) (valid s) (pess s) (ka s).
+Definition set_flags x s := mkS (store s) x (written s) (presume s) (cnt s) (agg s) (committer s) (primary s) (fu s) (cmaxc s) (tasks s) (valid s) (pess s) (ka s).
+Definition set_written x s := mkS (store s) (flags s) x (presume s) (cnt s) (agg s) (committer s) (primary s) (fu s) (cmaxc s) (tasks s) (valid s) (pess s) (ka s).
+Definition set_presume x s := mkS (store s) (flags s) (written s) x (cnt s) (agg s) (committer s) (primary s) (fu s) (cmaxc s) (tasks s) (valid s) (pess s) (ka s).
+Definition set_cnt x s := mkS (store s) (flags s) (written s) (presume s) x (agg s) (committer s) (primary s) (fu s) (cmaxc s) (tasks s) (valid s) (pess s) (ka s).
+Definition set_agg x s := mkS (store s) (flags s) (written s) (presume s) (cnt s) x (committer s) (primary s) (fu s) (cmaxc s) (tasks s) (valid s) (pess s) (ka s).
+Definition set_committer x s := mkS (store s) (flags s) (written s) (presume s) (cnt s) (agg s) x (primary s) (fu s) (cmaxc s) (tasks s) (valid s) (pess s) (ka s).
+Definition set_primary x s := mkS (store s) (flags s) (written s) (presume s) (cnt s) (agg s) (committer s) x (fu s) (cmaxc s) (tasks s) (valid s) (pess s) (ka s).
+Definition set_fu x s := mkS (store s) (flags s) (written s) (presume s) (cnt s) (agg s) (committer s) (primary s) x (cmaxc s) (tasks s) (valid s) (pess s) (ka s).
+Definition set_cmaxc x s := mkS (store s) (flags s) (written s) (presume s) (cnt s) (agg s) (committer s) (primary s) (fu s) x (tasks s) (valid s) (pess s) (ka s).
+Definition set_tasks x s := mkS (store s) (flags s) (written s) (presume s) (cnt s) (agg s) (committer s) (primary s) (fu s) (cmaxc s) x (valid s) (pess s) (ka s).
+Definition set_valid x s := mkS (store s) (flags s) (written s) (presume s) (cnt s) (agg s) (committer s) (primary s) (fu s) (cmaxc s) (tasks s) x (pess s) (ka s).
+Definition set_ka x s := mkS (store s) (flags s) (written s) (presume s) (cnt s) (agg s) (committer s) (primary s) (fu s) (cmaxc s) (tasks s) (valid s) (pess s) x.
+Definition kreset (k : kast) : kast := match k with KRunning _ => KUninit | x => x end.
+Definition kclose (k : kast) : kast := match k with KRunning _ => KClosed | x => x end.
+Definition krun (p : option key) (k : kast) : kast := match k, p with KUninit, Some q => KRunning q | x, _ => x end.
+(* ttlManager.reset / close / run *)
+Definition ka_reset (s : st) : st := match ka s with KRunning _ => set_ka KUninit s | _ => s end.
+Definition ka_close (s : st) : st := match ka s with KRunning _ => set_ka KClosed s | _ => s end.
+Definition ka_run (s : st) : st :=
+  match ka s, primary s with KUninit, Some p => set_ka (KRunning p) s | _, _ => s end.
+(* resetPrimary(keepTTLManager) *)
+Definition reset_primary (keep : bool) (s : st) : st :=
+  let s1 := set_primary None s in if keep then s1 else ka_reset s1.
 Definition add_task t s := set_tasks (tasks s ++ [t]) s.
 
 Definition a_cur x a := mkA x (prev a) (amaxc a) (aprim a) (alastprim a) (apk a) (alastpk a).
@@ -155,7 +171,7 @@ Definition agg_retry (s : st) : st :=
   | None => s
   | Some a =>
     let s1 := cleanup_redundant a s in
-    let s2 := if aprim a then set_primary None s1 else s1 in      (* resetPrimary(true) *)
+    let s2 := if aprim a then reset_primary true s1 else s1 in
     set_agg (Some (mkA [] (cur a) (amaxc a) false (aprim a || alastprim a) None (apk a))) s2
   end.
 
@@ -164,7 +180,7 @@ Definition agg_cancel (s : st) : st :=
   | None => s
   | Some a =>
     let s1 := cleanup_redundant a s in
-    let s2 := if aprim a || alastprim a then set_primary None s1 else s1 in   (* resetPrimary(false) *)
+    let s2 := if aprim a || alastprim a then reset_primary false s1 else s1 in
     let s3 := match cur a with
               | [] => s2
               | _ => add_task (TPessRb (keys_of (cur a)) (N.max (fu s2) (amaxc a)))
@@ -177,7 +193,9 @@ Definition agg_done (s : st) : st :=
   match agg s with
   | None => s
   | Some a =>
-    let s1 := cleanup_redundant a s in
+    (* no key became the primary in the last attempt: stop the keep-alive started for an earlier one *)
+    let s0 := if alastprim a && negb (aprim a) then ka_reset s else s in
+    let s1 := cleanup_redundant a s0 in
     set_agg None (set_cmaxc (N.max (cmaxc s1) (amaxc a)) (set_flags (flags s1 ++ keys_of (cur a)) s1))
   end.
 
@@ -269,8 +287,14 @@ Definition eff_locked (rk : list key) (loie : bool) (o : lock_out) : list key :=
   if hard_single rk o then []
   else filter (fun k => memk k rk && negb (loie && memk k (lo_absent o))) (lo_locked o).
 
-(* the request and everything after it *)
-Definition lock_rpc (all rk : list key) (assigned rv ce loie : bool) (f : ts) (o : lock_out) (s : st) : st :=
+Definition prim_batch_ok (rk : list key) (loie : bool) (o : lock_out) (s : st) : bool :=
+  match primary s with
+  | Some p => memk p rk && match lo_res o with None => true | Some _ => memk p (eff_locked rk loie o) end
+  | None => false
+  end.
+
+(* the request and everything after it (bookkeeping of keys; the keep-alive is added by [lock_rpc]) *)
+Definition lock_rpc_core (all rk : list key) (assigned rv ce loie : bool) (f : ts) (o : lock_out) (s : st) : st :=
   let lwc := eff_lwc s rk o in
   let lf := N.max f lwc in
   let s1 := set_store (fold_right (put_pess lf) (store s) (eff_locked rk loie o)) s in
@@ -299,6 +323,24 @@ Definition lock_rpc (all rk : list key) (assigned rv ce loie : bool) (f : ts) (o
     finish_lock rk rv ce loie (lo_absent o) lwc s3
   end.
 
+(* the keep-alive across the request: ttlManager.run when the batch holding the primary was answered
+   without a key error (no-op unless uninitialised); reset by resetPrimary(false) on a failing call that
+   had assigned the primary, and by unsetPrimaryKeyIfNeeded *)
+Definition lock_rpc_ka (rk : list key) (assigned loie : bool) (o : lock_out) (s : st) : kast :=
+  let k1 := if prim_batch_ok rk loie o s then krun (primary s) (ka s) else ka s in
+  match lo_res o with
+  | Some _ => if assigned then kreset k1 else k1
+  | None => if assigned && loie then
+              match primary s with
+              | Some p => if memk p (lo_absent o) then kreset k1 else k1
+              | None => k1
+              end
+            else k1
+  end.
+
+Definition lock_rpc (all rk : list key) (assigned rv ce loie : bool) (f : ts) (o : lock_out) (s : st) : st :=
+  set_ka (lock_rpc_ka rk assigned loie o s) (lock_rpc_core all rk assigned rv ce loie f o s).
+
 (* pessimistic branch: committer, primary, for-update ts, aggressive filter, request *)
 Definition lock_pess (keys : list key) (rv ce loie : bool) (f : ts) (o : lock_out) (s : st) : st * list key :=
   let s2 := set_committer true s in
@@ -311,10 +353,14 @@ Definition lock_pess (keys : list key) (rv ce loie : bool) (f : ts) (o : lock_ou
     let '(a', rk, err) := filter_agg a rv ce f (lo_expired o) canskip keys in
     let s5 := set_agg (Some a') s4 in
     if err then (s5, [])
-    else match rk with
-         | [] => (s5, [])
-         | _ => (lock_rpc keys rk assigned rv ce loie f o s5, rk)
-         end
+    else
+      (* resetTTLManagerForAggressiveLockingMode(hasNewLockToAcquire, assignedPrimary) *)
+      let s6 := if negb (match rk with [] => true | _ => false end) && assigned && negb (opt_eqb (apk a') (alastpk a'))
+                then ka_reset s5 else s5 in
+      match rk with
+      | [] => (s6, [])
+      | _ => (lock_rpc keys rk assigned rv ce loie f o s6, rk)
+      end
   | None => (lock_rpc keys keys assigned rv ce loie f o s4, keys)
   end.
 
@@ -344,8 +390,8 @@ Definition pending (s : st) : bool :=
 
 Definition rollback_body (s : st) : st :=
   let s1 := if pess s && committer s then
-              (if (cnt s =? 0)%Z then s
-               else set_store (run_task (TPessRb (flags s) (N.max (fu s) (cmaxc s))) (store s)) s)
+              ka_close (if (cnt s =? 0)%Z then s
+                        else set_store (run_task (TPessRb (flags s) (N.max (fu s) (cmaxc s))) (store s)) s)
             else s in
   set_valid false s1.
 
@@ -380,7 +426,7 @@ Definition primary_in (muts : list key) (s : st) : bool :=
   match primary s with Some p => memk p muts | None => true end.
 
 Definition commit_body (o : commit_out) (s : st) : st :=
-  let s0 := set_valid false s in
+  let s0 := ka_close (set_valid false s) in        (* defer txn.close(); defer committer.close() *)
   let muts := mutations (co_unnecessary o) s in
   match muts with
   | [] => s0
